@@ -132,16 +132,49 @@ def run(ctx):
                 ctx.ob("R07.1", "create.ok-after-os_start", dominated_by_edges(cr, bb, oke), cr.loc(bb, si), "Popen::create returns Ok only after os_start(..)? succeeded")
 
         # ---- R07.2 codec agreement -------------------------------------------
-        wa = [(bb, t) for bb, t in os_start.calls() if bb in fm.child_region and M.callee_str(t["f"]) in ("std::io::Write::write_all", "<std::fs::File as std::io::Write>::write_all", "<std::fs::File as std::io::Write>::write", "std::io::Write::write")]
+        WRITE_NAMES = ("std::io::Write::write_all", "<std::fs::File as std::io::Write>::write_all", "<std::fs::File as std::io::Write>::write", "std::io::Write::write")
+        wa = []
+        for p_ in [os_start.path] + sorted(fm.child_only_fns()):
+            f_ = prog.fns[p_]
+            for bb, t in f_.calls():
+                if M.callee_str(t["f"]) in WRITE_NAMES and fm.in_child(f_, bb):
+                    wa.append((f_, bb, t))
         ctx.ob("R07.2", "child-report.site", len(wa) == 1, os_start.loc(fm.child_entry), "exactly one write of the error code in the child; found %d" % len(wa))
         if len(wa) == 1:
-            wb, wt = wa[0]
-            a = [T.operand(x) for x in wt["args"]]
-            ctx.ob("R07.2", "child-report.to-status-pipe", is_pipe_comp(M.noref(a[0]), 1), os_start.loc(wb), "the child reports on %s (must be the status pipe's write end)" % M.term_str(a[0]))
+            wf, wb, wt = wa[0]
+            Tw = T if wf.path == os_start.path else M.Terms(wf)
+            a = [Tw.operand(x) for x in wt["args"]]
+
+            def through_caller(term):
+                """a helper's parameter, replaced by what the (child-region) caller passes"""
+                if wf.path == os_start.path:
+                    return term
+                cs = callers_of(prog, wf.path)
+                if len(cs) != 1:
+                    return term
+                cf, cb, ct = cs[0]
+                Tc_ = T if cf.path == os_start.path else M.Terms(cf)
+                sub = {("param", i + 1, wf.local_name(i + 1)): Tc_.operand(x) for i, x in enumerate(ct["args"])}
+
+                def rw(t_):
+                    if isinstance(t_, frozenset):
+                        return frozenset(rw(y) for y in t_)
+                    if not isinstance(t_, tuple) or not t_:
+                        return t_
+                    if t_ in sub:
+                        return sub[t_]
+                    if isinstance(t_[0], str):
+                        return (t_[0],) + tuple(rw(y) if isinstance(y, (tuple, frozenset)) else y for y in t_[1:])
+                    return tuple(rw(y) if isinstance(y, (tuple, frozenset)) else y for y in t_)
+                return rw(term)
+            dest = through_caller(M.noref(a[0]))
+            ctx.ob("R07.2", "child-report.to-status-pipe", is_pipe_comp(M.noref(dest), 1), wf.loc(wb), "the child reports on %s (must be the status pipe's write end)" % M.term_str(dest)[:100])
             arr = M.noref(a[1])
             while arr[0] == "cast":
                 arr = arr[2]
-            enc, src = shift_table_encode(T, arr)
+            enc, src = shift_table_encode(Tw, arr)
+            if src is not None:
+                src = through_caller(src)
             # decode expression: argument of from_raw_os_error
             dec = None
             dterm = None
@@ -152,7 +185,7 @@ def run(ctx):
                     while x[0] == "cast":
                         x = x[2]
                     dec = shift_table_decode(x)
-            ctx.ob("R07.2", "codec-tables-agree", enc is not None and dec is not None and enc == dec and sorted(enc) == [0, 1, 2, 3], os_start.loc(wb),
+            ctx.ob("R07.2", "codec-tables-agree", enc is not None and dec is not None and enc == dec and sorted(enc) == [0, 1, 2, 3], wf.loc(wb),
                    "child encodes byte->shift %s, parent decodes %s (must be equal, 4 bytes)" % (enc, dec))
             n = len(arr[2]) if arr[0] == "agg" else 4
             len_e = bool_edges(os_start, T, lambda c: c[0] == "bin" and c[1] == "Eq" and const_of(c[3]) == n and is_cnt(c[2]), True)
@@ -160,18 +193,28 @@ def run(ctx):
                 ctx.ob("R07.2", "decode-under-len==%d" % n, dominated_by_edges(os_start, bb, len_e), os_start.loc(bb), "the code is decoded only when exactly %d bytes (what the child writes) were read" % n)
             # what is encoded is do_exec's error
             okc = src is not None and M.contains(src, lambda u: u[0] == "call" and u[1] == "std::io::Error::raw_os_error") and M.contains(src, lambda u: u[0] == "call" and u[1] == DE)
-            ctx.ob("R07.2", "reported=do_exec-error", okc, os_start.loc(wb), "encoded value = %s (must be raw_os_error of do_exec's Err)" % (M.term_str(src) if src else None))
+            ctx.ob("R07.2", "reported=do_exec-error", okc, wf.loc(wb), "encoded value = %s (must be raw_os_error of do_exec's Err)" % (M.term_str(src) if src else None))
 
     # ---- R07.3 the child never returns into the caller ------------------------
     rets = [b for b in os_start.return_blocks() if b in fm.child_region]
     ctx.ob("R07.3", "child-never-returns", not rets, os_start.loc(fm.child_entry), "from the fork-child entry no path may reach os_start's return (found return blocks %s)" % rets)
     ends = []
-    for b in sorted(fm.child_region):
-        t = os_start.blocks[b]["term"]
-        if t["k"] == "call" and t["t"] is None:
-            ends.append(M.callee_str(t["f"]))
-        elif t["k"] in ("return", "unreachable") and t["k"] == "return":
-            ends.append("return")
+
+    def diverging_ends(f_, blocks, depth=0):
+        for b in sorted(blocks):
+            t = f_.blocks[b]["term"]
+            if t["k"] == "call" and t["t"] is None:
+                nm = M.callee_str(t["f"])
+                if nm in fm.child_only_fns() and nm != "posix::_exit" and depth < 4:
+                    g_ = prog.fns[nm]
+                    if g_.return_blocks():
+                        ends.append("return-from:" + nm)
+                    diverging_ends(g_, g_.live_blocks(), depth + 1)
+                else:
+                    ends.append(nm)
+            elif t["k"] == "return" and f_.path == os_start.path:
+                ends.append("return")
+    diverging_ends(os_start, fm.child_region)
     ok = bool(ends) and all(e == "posix::_exit" or is_panic_callee(e) for e in ends)
     ctx.ob("R07.3", "child-ends-in-exit", ok and "posix::_exit" in ends, os_start.loc(fm.child_entry), "child paths end in %s (must be _exit or a panic entry)" % sorted(set(ends)))
     ex = prog.one("posix::_exit")
@@ -264,7 +307,7 @@ def run(ctx):
     }
     scope = [os_start.path, "popen::Popen::create", "popen::Popen::setup_streams", "popen::os::set_inheritable", "popen::os::make_pipe", DE,
              "<popen::Popen as std::ops::Drop>::drop", "popen::get_standard_stream", "popen::get_standard_stream::{closure#0}"]
-    scope += [p for p in prog.fns if p.startswith("posix::") or p.startswith("popen::Popen::setup_streams::")]
+    scope += [p for p in prog.fns if p.startswith("posix::") or p.startswith("popen::Popen::setup_streams::")] + sorted(fm.child_only_fns())
     n = 0
     for p in scope:
         fn = prog.fns.get(p)
@@ -278,14 +321,14 @@ def run(ctx):
             if nm.endswith("::ok") or nm.endswith("::err"):
                 a = M.Terms(fn).operand(t["args"][0])
                 prod = a[1] if a[0] == "call" else nm
-            if (p, prod) in ALLOW:
-                if p == os_start.path and prod.endswith("write_all") and bb not in fm.child_region:
-                    ctx.ob("R07.6", "discard:%s@%s" % (prod, p), False, fn.loc(bb), "allow-listed discard outside the child region")
+            if prod.endswith("write_all") and fm.in_child(fn, bb):
+                continue  # the child's final report: nothing is left to do if it fails
+            if (p, prod) in ALLOW and not prod.endswith("write_all"):
                 continue
             ctx.ob("R07.6", "discard:%s@%s" % (prod, p), False, fn.loc(bb), "the Result of %s is %s in %s" % (prod, why, p))
     ctx.floor("R07.6", "functions scanned for discarded results", n, 30)
     # positive control: the allow-listed child write is seen by the detector
-    seen = [1 for bb, t, why in discarded_results(os_start) if bb in fm.child_region]
+    seen = [1 for p_ in [os_start.path] + sorted(fm.child_only_fns()) for bb, t, why in discarded_results(prog.fns[p_]) if fm.in_child(prog.fns[p_], bb)]
     ctx.ob("R07.6", "control:discard-matcher", len(seen) >= 1, os_start.loc(fm.child_entry), "positive control: the child's `write_all(..).ok()` must be seen by the discarded-result matcher")
 
 
